@@ -1118,4 +1118,186 @@ theorem labelsInjective_ints (t : Table) (y : String) (hint : ∀ i, i < t.nrows
     LabelsInjective t y :=
   labelsInjective_int t y hint fun _ _ _ _ h => Int.repr_inj.1 h
 
+/-! ### round k1: the printing hypotheses discharged, `LabelsInjective` characterised by an iff -/
+
+theorem render_flt_inj (q r : Int) (h : (Cell.flt q).render = (Cell.flt r).render) : q = r := by
+  simp only [Cell.render] at h
+  have h' : "F:" ++ toString q = "F:" ++ toString r := by simpa [toString] using h
+  exact Int.repr_inj.1 (String.append_right_inj _ |>.1 h')
+
+/-- FLOAT y values always give distinct column keys: `labelsInjective_flt` without its printing hypothesis (the wire atom `F:<quarters>` is
+`"F:" ++ Int.repr q`, and `Int.repr` is injective) -/
+theorem labelsInjective_flts (t : Table) (y : String) (hflt : ∀ i, i < t.nrows → ∃ q, t.jcellAt y i = .flt q) :
+    LabelsInjective t y :=
+  labelsInjective_flt t y hflt fun q r _ _ h => render_flt_inj q r h
+
+theorem render_dt_inj (q r : Int) (h : (Cell.dt q).render = (Cell.dt r).render) : q = r := by
+  simp only [Cell.render] at h
+  have h' : "T:" ++ toString q = "T:" ++ toString r := by simpa [toString] using h
+  exact Int.repr_inj.1 (String.append_right_inj _ |>.1 h')
+
+/-- DATETIME y values always give distinct column keys (the datetime itself is the key; model name U+0000 `T:<microseconds>`) -/
+theorem labelsInjective_dts (t : Table) (y : String) (hdt : ∀ i, i < t.nrows → ∃ us, t.jcellAt y i = .dt us) :
+    LabelsInjective t y := by
+  apply labelsInjective_of_keyName
+  intro i j hi hj he
+  obtain ⟨a, ha⟩ := hdt i hi
+  obtain ⟨b, hb⟩ := hdt j hj
+  rw [ha, hb] at he ⊢
+  simp only [keyName, Option.some.injEq, String.append_right_inj] at he
+  rw [render_dt_inj a b he]
+
+/-- `str(n)` consists of digits and `-` -/
+theorem repr_chars (q : Int) : ∀ c ∈ q.repr.toList, c.isDigit = true ∨ c = '-' := by
+  rw [Int.repr_eq_if]
+  split
+  · intro c hc
+    rw [Nat.toList_repr] at hc
+    exact .inl (Nat.isDigit_of_mem_toDigits (by omega) (by omega) hc)
+  · intro c hc
+    simp only [String.toList_append, List.mem_append, Nat.toList_repr] at hc
+    rcases hc with hc | hc
+    · right
+      have : "-".toList = ['-'] := by decide
+      rw [this] at hc; simpa using hc
+    · exact .inl (Nat.isDigit_of_mem_toDigits (by omega) (by omega) hc)
+
+theorem repr_ne_of_char (q : Int) (w : String) (c : Char) (hc : c ∈ w.toList) (hd : c.isDigit = false) (hm : c ≠ '-') : q.repr ≠ w := by
+  intro h
+  rcases repr_chars q c (h ▸ hc) with h1 | h1
+  · rw [h1] at hd; cases hd
+  · exact hm h1
+
+theorem flt_ne_special (q : Int) (w : String) (c : Char) (hc : c ∈ w.toList) (hd : c.isDigit = false) (hm : c ≠ '-') :
+    "F:" ++ q.repr ≠ "F:" ++ w := by
+  intro he
+  exact repr_ne_of_char q w c hc hd hm (String.append_right_inj _ |>.1 he)
+
+/-- the wire atoms of two non-string, non-int, non-bool scalars coincide only for equal cells: `None`, floats, ±inf, NaN and datetimes
+never share a column key (`str(q)` has only digits and `-`, so `F:<q>` is none of `F:nan`, `F:inf`, `F:-inf`) -/
+theorem render_tagged_inj (a b : Cell)
+    (ha : (∃ q, a = .flt q) ∨ (∃ us, a = .dt us) ∨ a = .none ∨ a = .nan ∨ a = .pinf ∨ a = .ninf)
+    (hb : (∃ q, b = .flt q) ∨ (∃ us, b = .dt us) ∨ b = .none ∨ b = .nan ∨ b = .pinf ∨ b = .ninf)
+    (h : a.render = b.render) : a = b := by
+  have e1 : "F:nan" = "F:" ++ "nan" := by decide
+  have e2 : "F:inf" = "F:" ++ "inf" := by decide
+  have e3 : "F:-inf" = "F:" ++ "-inf" := by decide
+  have n1 : ∀ q : Int, "F:" ++ q.repr ≠ "F:nan" := fun q => e1 ▸ flt_ne_special q "nan" 'n' (by decide) (by decide) (by decide)
+  have n2 : ∀ q : Int, "F:" ++ q.repr ≠ "F:inf" := fun q => e2 ▸ flt_ne_special q "inf" 'i' (by decide) (by decide) (by decide)
+  have n3 : ∀ q : Int, "F:" ++ q.repr ≠ "F:-inf" := fun q => e3 ▸ flt_ne_special q "-inf" 'i' (by decide) (by decide) (by decide)
+  rcases ha with ⟨q, rfl⟩ | ⟨us, rfl⟩ | rfl | rfl | rfl | rfl <;>
+  rcases hb with ⟨r, rfl⟩ | ⟨vs, rfl⟩ | rfl | rfl | rfl | rfl <;>
+  first
+  | rfl
+  | (rw [render_flt_inj _ _ h])
+  | (rw [render_dt_inj _ _ h])
+  | (exfalso; simp only [Cell.render] at h; revert h; decide)
+  | (exfalso; simp only [Cell.render] at h
+     have h' := h
+     simp only [toString] at h'
+     first
+     | exact n1 _ h' | exact n2 _ h' | exact n3 _ h' | exact n1 _ h'.symm | exact n2 _ h'.symm | exact n3 _ h'.symm)
+  | (exfalso; simp only [Cell.render] at h
+     have := congrArg (fun s : String => s.toList.head?) h
+     simp [toString] at this)
+
+/-- the harness assumption "string cells do not start with U+0000" as a predicate on a cell -/
+def Untagged (c : Cell) : Prop := ∀ s, c = .str s → s.toList.head? ≠ some '\x00'
+
+theorem tagged_head (w : String) : ("\x00" ++ w).toList.head? = some '\x00' := by
+  have : "\x00".toList = ['\x00'] := by decide
+  simp [String.toList_append, this]
+
+/-- **when two y values share a column key** (all scalar kinds, no bools): only when they are the same cell, or one is an int `n` and
+the other the string `str(n)` — the collision of defect P1 and nothing else.  Replaces the per-kind printing hypotheses. -/
+theorem keyName_eq_cases (a b : Cell) (ha : Untagged a) (hb : Untagged b) (s : String)
+    (h1 : keyName a = some s) (h2 : keyName b = some s) :
+    a = b ∨ (∃ n : Int, a = .int n ∧ b = .str (toString n)) ∨ (∃ n : Int, a = .str (toString n) ∧ b = .int n) := by
+  have tagged : ∀ c : Cell, (∃ q, c = .flt q) ∨ (∃ us, c = .dt us) ∨ c = .none ∨ c = .nan ∨ c = .pinf ∨ c = .ninf →
+      keyName c = some ("\x00" ++ c.render) := by
+    rintro c (⟨q, rfl⟩ | ⟨us, rfl⟩ | rfl | rfl | rfl | rfl) <;> rfl
+  have kinds : ∀ c : Cell, (∃ x, c = .bool x) ∨ (∃ s, c = .str s) ∨ (∃ n, c = .int n) ∨
+      ((∃ q, c = .flt q) ∨ (∃ us, c = .dt us) ∨ c = .none ∨ c = .nan ∨ c = .pinf ∨ c = .ninf) := by
+    intro c; cases c <;> simp
+  have int_not_tagged : ∀ (n : Int) (w : String), toString n ≠ "\x00" ++ w := by
+    intro n w he
+    have h0 : ("\x00" ++ w).toList.head? = some '\x00' := tagged_head w
+    have hm : '\x00' ∈ ("\x00" ++ w).toList := by
+      cases hl : ("\x00" ++ w).toList with
+      | nil => rw [hl] at h0; cases h0
+      | cons c cs => rw [hl] at h0; simp at h0; subst h0; simp
+    exact repr_ne_of_char n _ '\x00' hm (by decide) (by decide) he
+  rcases kinds a with ⟨x, rfl⟩ | ⟨sa, rfl⟩ | ⟨na, rfl⟩ | ta
+  · cases h1
+  · simp only [keyName, Option.some.injEq] at h1; subst h1
+    rcases kinds b with ⟨x, rfl⟩ | ⟨sb, rfl⟩ | ⟨nb, rfl⟩ | tb
+    · cases h2
+    · simp only [keyName, Option.some.injEq] at h2; subst h2; exact .inl rfl
+    · simp only [keyName, Option.some.injEq] at h2; subst h2; exact .inr (.inr ⟨nb, rfl, rfl⟩)
+    · rw [tagged b tb, Option.some.injEq] at h2
+      exact absurd (h2 ▸ tagged_head _) (ha _ rfl)
+  · simp only [keyName, Option.some.injEq] at h1; subst h1
+    rcases kinds b with ⟨x, rfl⟩ | ⟨sb, rfl⟩ | ⟨nb, rfl⟩ | tb
+    · cases h2
+    · simp only [keyName, Option.some.injEq] at h2; subst h2; exact .inr (.inl ⟨na, rfl, rfl⟩)
+    · simp only [keyName, Option.some.injEq] at h2
+      rw [Int.repr_inj.1 h2]; exact .inl rfl
+    · rw [tagged b tb, Option.some.injEq] at h2
+      exact absurd h2.symm (int_not_tagged na _)
+  · rw [tagged a ta, Option.some.injEq] at h1; subst h1
+    rcases kinds b with ⟨x, rfl⟩ | ⟨sb, rfl⟩ | ⟨nb, rfl⟩ | tb
+    · cases h2
+    · simp only [keyName, Option.some.injEq] at h2; subst h2
+      exact absurd (tagged_head _) (hb _ rfl)
+    · simp only [keyName, Option.some.injEq] at h2
+      exact absurd h2 (int_not_tagged nb _)
+    · rw [tagged b tb, Option.some.injEq] at h2
+      exact .inl (render_tagged_inj a b ta tb (String.append_right_inj _ |>.1 h2).symm)
+
+/-- **`LabelsInjective` characterised**: for a y column of untagged, non-bool scalars the rendering of y values as column keys is
+injective IFF no row holds an int `n` while another holds the string `str(n)` — whatever the mix of None, ints, floats, ±inf, NaN,
+strings and datetimes.  (`←`: `keyName_eq_cases`; `→`: such a pair has one key and `cmp` does not call an int and a string equal.) -/
+theorem labelsInjective_iff (t : Table) (y : String)
+    (hlab : ∀ i, i < t.nrows → (keyName (t.jcellAt y i)).isSome = true)
+    (hun : ∀ i, i < t.nrows → Untagged (t.jcellAt y i)) :
+    LabelsInjective t y ↔
+      ¬ ∃ i j n, i < t.nrows ∧ j < t.nrows ∧ t.jcellAt y i = .int n ∧ t.jcellAt y j = .str (toString n) := by
+  constructor
+  · rintro h ⟨i, j, n, hi, hj, ei, ej⟩
+    have := h i j hi hj (by simp only [yCell, yLabel, ei, ej, keyName])
+    simp only [yCell, ei, ej] at this
+    have h2 := (cmp_tuple_eq_iff [.int n] [.str (toString n)]).1 this
+    have h3 := h2.2 0 (by simp)
+    simp [keyEq] at h3
+  · intro h
+    apply labelsInjective_of_keyName
+    intro i j hi hj he
+    obtain ⟨s, hs⟩ := Option.isSome_iff_exists.1 (hlab i hi)
+    rcases keyName_eq_cases _ _ (hun i hi) (hun j hj) s hs (he ▸ hs) with e | ⟨n, e1, e2⟩ | ⟨n, e1, e2⟩
+    · exact e
+    · exact absurd ⟨i, j, n, hi, hj, e1, e2⟩ h
+    · exact absurd ⟨j, i, n, hj, hi, e2, e1⟩ h
+
+/-- the hypotheses of `labelsInjective_iff` hold of `exMixed` (a float, `None`, the string `'1.5'`, a datetime and the int `2` as y values), and
+its right-hand side too: no int beside its own `str` -/
+example : (∀ i, i < exMixed.nrows → (keyName (exMixed.jcellAt "y" i)).isSome = true) ∧
+    (∀ i, i < exMixed.nrows → Untagged (exMixed.jcellAt "y" i)) ∧ LabelsInjective exMixed "y" := by
+  have h1 : ∀ i, i < exMixed.nrows → (keyName (exMixed.jcellAt "y" i)).isSome = true := by decide
+  have h2 : ∀ i, i < exMixed.nrows → Untagged (exMixed.jcellAt "y" i) := by
+    intro i hi s hs
+    have : ∀ i, i < exMixed.nrows → exMixed.jcellAt "y" i = .str s → s = "1.5" := by
+      intro i hi
+      have h5 : exMixed.nrows = 5 := by decide
+      rw [h5] at hi
+      rcases i with _ | _ | _ | _ | _ | i <;> first | (intro h; cases h; done) | (intro h; cases h; rfl) | omega
+    rw [this i hi hs]; decide
+  refine ⟨h1, h2, (labelsInjective_iff exMixed "y" h1 h2).2 ?_⟩
+  rintro ⟨i, j, n, hi, hj, ei, ej⟩
+  have h5 : exMixed.nrows = 5 := by decide
+  rw [h5] at hi hj
+  have hn : n = 2 := by
+    rcases i with _ | _ | _ | _ | _ | i <;> first | (cases ei; done) | (cases ei; rfl) | omega
+  subst hn
+  rcases j with _ | _ | _ | _ | _ | j <;> first | (cases ej; done) | omega | (revert ej; decide)
+
 end Pyg.Props.C11
